@@ -112,8 +112,9 @@ func (v *VMap) validate(prefix string, tv reflect.Value) *VMap {
 				case Either, BothEq:
 					v.vc.initValid2FieldsMap(&name2Value{
 						validName:  validName,
-						fieldName:  key,
+						fieldName:  v.getKey(prefix, key),
 						cusMsg:     cusMsg,
+						groupName:  prefix,
 						reflectVal: val,
 					})
 				default:
